@@ -650,19 +650,65 @@ def unrounded_default_mech(tgt, case, c1, c2):
     return []
 
 
+def fresh(v):
+    """an equal value of the same type built from scratch: no object shared with the original (as far as
+    CPython allows: small ints, 0/1-character strings, empty tuples are singletons)"""
+    if isinstance(v, bool) or v is None:
+        return v
+    if type(v) is str:
+        return ''.join([c for c in v])
+    if type(v) is bytes:
+        return bytes(bytearray(v))
+    if type(v) is int:
+        return int(str(v))
+    if type(v) is float:
+        return float(repr(v))
+    if type(v) is tuple:
+        return tuple([fresh(i) for i in v])
+    if type(v) is list:
+        return [fresh(i) for i in v]
+    if type(v) is dict:
+        return dict((fresh(k), fresh(x)) for k, x in v.items())
+    if type(v) in (set, frozenset):
+        return type(v)([fresh(i) for i in v])
+    return v
+
+
+def identity_mech(case, c1, c2):
+    """witness-derived: the two calls are equal value by value (same types, same reprs) and differ only in
+    *which objects* carry the values, and the keymap pickles the key with a serializer - pickle's memo then
+    encodes a repeated object as a back-reference, so the key bytes depend on object identity"""
+    km = case['keymap']
+    if km['cls'] != 'picklemap' or km['type'] is None:
+        return []
+    try:
+        if list(c1[1]) == list(c2[1]) and repr(c1) == repr(c2):
+            return ['picklemap-key-depends-on-object-identity']
+    except Exception:
+        pass
+    return []
+
+
 def judge_equiv(J, tgt, f, kg, rng, spec, asg, fixed):
     c1 = spell(rng, spec, asg, tgt.defaults, fixed)
+    if rng.random() < 0.25:
+        # the same call, every value an equal but freshly built object (a string read from a file instead of a
+        # literal, a tuple built at run time): no sharing with the defaults, the parameter names or other arguments
+        c2 = ([fresh(v) for v in c1[0]], dict((k, fresh(v)) for k, v in c1[1].items()))
+        J.note('c09_pairs_fresh_objects')
+        check_equiv(J, tgt, f, kg, c1, c2, extra_mech=identity_mech(J.case, c1, c2))
+        return
     c2 = spell(rng, spec, asg, tgt.defaults, fixed)
     check_equiv(J, tgt, f, kg, c1, c2)
 
 
-def check_equiv(J, tgt, f, kg, c1, c2):
+def check_equiv(J, tgt, f, kg, c1, c2, extra_mech=()):
     case = J.case
     b1, b2 = _call_ok(tgt, *c1), _call_ok(tgt, *c2)
     if b1 is None or b2 is None or not _same(b1, b2):
         J.note('oracle_dropped')
         return
-    trivial = (list(c1[0]) == list(c2[0]) and list(c1[1].items()) == list(c2[1].items()))
+    trivial = (list(c1[0]) == list(c2[0]) and list(c1[1].items()) == list(c2[1].items())) and not extra_mech
     ks1, e1 = _keys(J, tgt, f, kg, *c1)
     ks2, e2 = _keys(J, tgt, f, kg, *c2)
     J.note('c09_pairs')
@@ -679,7 +725,7 @@ def check_equiv(J, tgt, f, kg, c1, c2):
             J.bad('C09', 'equivalent-calls-different-keys',
                   '%s: calls %s and %s bind identically but get keys %s and %s'
                   % (which, srepr(c1), srepr(c2), srepr(x)[:150], srepr(y)[:150]),
-                  mech=nonflat_order_mech(tgt, case, c1, c2) + unrounded_default_mech(tgt, case, c1, c2),
+                  mech=nonflat_order_mech(tgt, case, c1, c2) + unrounded_default_mech(tgt, case, c1, c2) + list(extra_mech),
                   pair=[enc(list(c1)), enc(list(c2))])
             return
     try:
@@ -691,7 +737,7 @@ def check_equiv(J, tgt, f, kg, c1, c2):
     if n != 0:
         J.bad('C09', 'equivalent-call-recomputed',
               'after %s the identically-binding call %s was evaluated again' % (srepr(c1), srepr(c2)),
-              mech=nonflat_order_mech(tgt, case, c1, c2) + unrounded_default_mech(tgt, case, c1, c2))
+              mech=nonflat_order_mech(tgt, case, c1, c2) + unrounded_default_mech(tgt, case, c1, c2) + list(extra_mech))
 
 
 def judge_flattening(J, tgt, f, kg, rng, spec, pool):
